@@ -76,7 +76,7 @@ func Gen(prop, tier string, seed uint64) *kernel.Plan {
 	case "C18":
 		cfg.Oracles["notify"], cfg.Oracles["realtime"] = true, true
 	case "C19":
-		cfg.Oracles["rest"] = true
+		cfg.Oracles["rest"], cfg.Oracles["log"] = true, true
 	}
 	realtime := prop == "C18"
 	for i := 0; i < nAct; i++ {
@@ -88,6 +88,9 @@ func Gen(prop, tier string, seed uint64) *kernel.Plan {
 		k := keyPool[i]
 		c.keys = append(c.keys, k)
 		c.kindOf[k] = kinds[g.Pick([]int{2, 3, 3, 3})]
+		if prop == "C19" && (i == 0 || g.Chance(2, 3)) {
+			c.kindOf[k] = "doc"
+		}
 	}
 	var evs []Ev
 	// entry: the first actor creates, the others subscribe / subscribe-or-create after the creator's first sync
@@ -121,6 +124,21 @@ func Gen(prop, tier string, seed uint64) *kernel.Plan {
 		nev = g.Range(30, 120)
 	}
 	wLocal, wTx, wSync, wPar, wAdv, wLate := 50, 5, 25, 0, 4, 0
+	wRogue, wReset, wPatch, wWire := 0, 0, 0, 0
+	switch prop {
+	case "C16":
+		wRogue = 25
+	case "C17":
+		wRogue, wReset = 12, 2
+	case "C19":
+		wPatch = 12
+	case "C06":
+		wWire = 15
+	case "C07":
+		wWire = 15
+	case "C18":
+		wSync = 3
+	}
 	if prop == "C12" {
 		wPar = 20
 	}
@@ -129,7 +147,7 @@ func Gen(prop, tier string, seed uint64) *kernel.Plan {
 	}
 	for i := 0; i < nev; i++ {
 		a := g.Intn(nAct)
-		switch g.Pick([]int{wLocal, wTx, wSync, wPar, wAdv, wLate}) {
+		switch g.Pick([]int{wLocal, wTx, wSync, wPar, wAdv, wLate, wRogue, wReset, wPatch, wWire}) {
 		case 0:
 			evs = append(evs, c.localEv(a))
 		case 1:
@@ -153,6 +171,36 @@ func Gen(prop, tier string, seed uint64) *kernel.Plan {
 			evs = append(evs, e)
 		case 4:
 			evs = append(evs, Ev{T: "advance", Dur: []int64{1, 5, 50, 1000, 6000, 60000, 86400000}[g.Intn(7)]})
+		case 6:
+			e := Ev{T: "rogue", A: a, S: g.U64() % 100000}
+			if prop == "C17" {
+				e.Mode = []string{"other-collection", "foreign-duid", "client-other-collection", "unknown-collection"}[g.Intn(4)]
+			}
+			evs = append(evs, e)
+		case 7:
+			evs = append(evs, Ev{T: "reset", A: g.Intn(3)})
+		case 8:
+			k := c.keys[g.Intn(len(c.keys))]
+			if g.Chance(1, 4) {
+				k = "restkey"
+			}
+			evs = append(evs, Ev{T: "patch", A: a, K: k, S: g.U64() % 100000})
+		case 9:
+			e := Ev{T: "wire", A: a, N: g.Intn(4)}
+			switch g.Intn(6) {
+			case 0:
+				e.Mode = "repush"
+			case 1:
+				e.Mode = "reapply"
+			case 2:
+				e.Mode = "stale"
+			case 3:
+				e.Resp = "drop"
+			}
+			if prop == "C06" && (e.Mode == "reapply" || e.Mode == "stale" || e.Resp == "drop") {
+				e.Mode, e.Resp = "repush", ""
+			}
+			evs = append(evs, e)
 		}
 		if prop == "C13" && g.Chance(1, 6) {
 			// the whole entry matrix: any mode, any kind (possibly not the key's), any key (possibly unused)
